@@ -246,8 +246,9 @@ def apply_subst(lines, substs, log):
     out = []
     for l in lines:
         for (a, b) in substs:
-            if a in l:
-                l = l.replace(a, b); log.add("R4u")
+            l2 = re.sub(a, b, l)
+            if l2 != l:
+                l = l2; log.add("R4u")
         out.append(l)
     return out
 
@@ -319,6 +320,9 @@ def process_unit(path, meta, update_mirror=False):
     while i < len(src_lines):
         l = src_lines[i]
         s = l.strip()
+        if s.startswith("//@@ subst-clear"):
+            substs = []
+            out.append(l); mirror_out.append(l); i += 1; continue
         if s.startswith("//@@ subst "):
             a, b = s[len("//@@ subst "):].split("=>")
             substs.append((a.strip(), b.strip()))
